@@ -133,6 +133,7 @@ def run(ctx: Ctx) -> None:
     if "error" in cal:
         raise MachineryError(f"pool calibration failed: {cal['error']}")
     dev = (cal["Dev_MaxIdleZeroKeeps"], cal["Dev_LastSessionOnly"], cal["IntrMode"])
+    PW.INTR_OK = {tuple(k.split(":")) for k, v in cal["intr_modes"].items() if v == cal["IntrMode"]}
     ctx.extra["pool_design_followed_by_code"] = cal
 
     graphs = {
@@ -187,7 +188,7 @@ def run(ctx: Ctx) -> None:
         cases.sort(key=lambda c: (c["script"], c["pos"], c["exc"], c["mi"]))
         if quick:
             pick = {("s_unary", 0, "none", 1), ("s_abandon", 1, "none", 1), ("s_abandon_then_close", 1, "none", 1),
-                    ("s_unary_intr", 2, "Exception", 2), ("s_closed_then_hdr_intr", 1, "Exception", 1),
+                    ("s_unary_intr", 2, "Exception", 2), ("s_closed_then_hdr_intr", 1, "Exception", 1), ("s_tick_intr", 1, "OSError", 1),
                     ("s_stream_close", 1, "none", 0), ("s_unary_intr", 1, "OSError", 1), ("s_close_intr", 2, "Base", 1),
                     ("s_stream_error", 1, "none", 1)}
             sub_cases = [c for c in cases if (c["script"], c["pos"], c["exc"], c["mi"]) in pick]
